@@ -2299,10 +2299,10 @@ D_PREDICATES = {
                                                             for b in _subblocks(s) for x in b) and _has_a(s),
     "C02:promote": lambda s: _tflag(s) == 1,
     "unionMemberConstraint": lambda s: _tflag(s) == 2,
-    "matchExhaustiveLeavesScope": lambda s: s[0] in ("if", "loop", "try", "mt") and any(_any(x, lambda y: y[0] == "mt")
-                                                                                            for b in _subblocks(s) for x in b),
 }
-CLASS_ORDER = ["C02:promote", "unionMemberConstraint", "loopCarriedLiteral", "matchExhaustiveLeavesScope", "C09:loopElse", "C09:secondVisitSeed", "C09:loopBreak",
+# (matchExhaustiveLeavesScope and tupleConcat were repaired in /repo — 232b32d, b494820 —: no longer classes, their
+# witnesses stay in corpus/C01.jsonl as regression cases that must pass)
+CLASS_ORDER = ["C02:promote", "unionMemberConstraint", "loopCarriedLiteral", "C09:loopElse", "C09:secondVisitSeed", "C09:loopBreak",
                "C09:jumpThroughFinally", "C09:loopJumpInSuppressing", "C09:nestedLoopJump"]
 
 
@@ -2344,6 +2344,19 @@ MINI_TYPES = [
 MINI_LITS = [("int", 0), ("int", 1), ("int", 5), ("str", "a"), ("str", ""), ("none",), ("bool", 1), ("bool", 0), ("int", -1)]
 
 
+# helper functions the MiniPy programs may call: (name, arity, declared return type, source); the Lean driver has the same
+# implementations (Driver/C01.lean implStd). Parameters are `object` so that no argument diagnostic interferes.
+MINI_HELPERS = [
+    ("h0", 1, T(INT), "def h0(a: object) -> int:\n    return 7\n"),
+    ("h1", 1, Un(T(STR), NONE_T), "def h1(a: object) -> Optional[str]:\n    return None if a is None else 's'\n"),
+    ("h2", 1, ("seq", TUPLE, [T(INT), T(STR)]), "def h2(a: object) -> tuple[int, str]:\n    return (3, 't')\n"),
+    ("h3", 2, ("generic", LIST, [T(INT)]), "def h3(a: object, b: object) -> list[int]:\n    return [1, 2]\n"),
+    ("h4", 1, Un(T(INT), NONE_T), "def h4(a: object) -> Optional[int]:\n    return a if type(a) is int else None\n"),
+    ("h5", 1, OBJECT_T, "def h5(a: object) -> object:\n    return a\n"),
+]
+MINI_PRELUDE = PRELUDE_HEAD + "".join(h[3] for h in MINI_HELPERS)
+
+
 class MiniGen:
     def __init__(self, rng):
         self.rng = rng
@@ -2374,7 +2387,11 @@ class MiniGen:
             else:
                 base = self.expr(defined, depth - 1)
             return ("sub", base, rng.choice([0, 1, -1, 0, 1, 2, -2, 5]))
-        return ("ite", self.test(defined), self.expr(defined, depth - 1), self.expr(defined, depth - 1))
+        if r < 0.87:
+            return ("ite", self.test(defined), self.expr(defined, depth - 1), self.expr(defined, depth - 1))
+        f = rng.randrange(len(MINI_HELPERS))
+        n = MINI_HELPERS[f][1] if rng.random() < 0.95 else 1 + (MINI_HELPERS[f][1] % 2)
+        return ("call", f, [self.expr(defined, depth - 1) for _ in range(n)])
 
     def block(self, defined, nvars, budget, depth):
         """returns (stmts, defined_after or None if the block always returns)"""
@@ -2398,6 +2415,30 @@ class MiniGen:
             elif r < 0.36 and depth < 2:
                 out.append(("ret", self.expr(defined, 2)))
                 return out, None
+            elif r < 0.5:
+                n = rng.choice([1, 2, 2, 3])
+                xs = []
+                for _ in range(n):
+                    x = rng.choice(defined) if rng.random() < 0.3 else nvars[0]
+                    if x == nvars[0]:
+                        nvars[0] += 1
+                    xs.append(x)
+                seqs = [x for x in defined if self.seqish.get(x)]
+                rr = rng.random()
+                if seqs and rr < 0.5:
+                    e = ("var", rng.choice(seqs))
+                elif rr < 0.8:
+                    e = (rng.choice(["tup", "lst"]), [self.expr(defined, 2) for _ in range(n if rng.random() < 0.8 else rng.choice([0, 1, 2, 3]))])
+                elif rr < 0.9:
+                    e = ("call", rng.choice([2, 3]), [("lit", ("int", 0))] * (1 if rr < 0.85 else 2))
+                    e = ("call", 2, [("lit", ("int", 0))]) if rr < 0.85 else ("call", 3, [("lit", ("int", 0)), ("lit", ("int", 0))])
+                else:
+                    e = self.expr(defined, 2)
+                out.append(("unp", xs, e))
+                for x in xs:
+                    self.seqish[x] = False
+                    if x not in defined:
+                        defined.append(x)
             else:
                 x = rng.choice(defined) if rng.random() < 0.4 else nvars[0]
                 if x == nvars[0]:
@@ -2459,6 +2500,8 @@ def mini_expr_src(e, path, instr):
         s = ("(%s%s)" % (", ".join(parts), "," if len(parts) == 1 else "")) if k == "tup" else "[%s]" % ", ".join(parts)
     elif k == "sub":
         s = "%s[%d]" % (mini_expr_src(e[1], path + [0], instr), e[2])
+    elif k == "call":
+        s = "%s(%s)" % (MINI_HELPERS[e[1]][0], ", ".join(mini_expr_src(x, path + [j], instr) for j, x in enumerate(e[2])))
     else:
         s = "(%s if %s else %s)" % (mini_expr_src(e[2], path + [1], instr), mini_test_src(e[1]), mini_expr_src(e[3], path + [2], instr))
     if instr:
@@ -2476,6 +2519,8 @@ def mini_block_src(stmts, path, ind, instr, out):
             out.append("%sv%d = %s" % (p, s[1], mini_expr_src(s[2], sp + [0], instr)))
         elif s[0] == "ret":
             out.append("%sreturn %s" % (p, mini_expr_src(s[1], sp + [0], instr)))
+        elif s[0] == "unp":
+            out.append("%s%s, = %s" % (p, ", ".join("v%d" % x for x in s[1]), mini_expr_src(s[2], sp + [0], instr)))
         else:
             out.append("%sif %s:" % (p, mini_test_src(s[1])))
             mini_block_src(s[2], sp + [1], ind + 1, instr, out)
@@ -2505,6 +2550,8 @@ def mini_sexp(prog):
             return "(" + " ".join([k] + [ex(x) for x in e[1]]) + ")"
         if k == "sub":
             return "(sub %s %d)" % (ex(e[1]), e[2])
+        if k == "call":
+            return "(" + " ".join(["call", str(e[1])] + [ex(x) for x in e[2]]) + ")"
         return "(ite %s %s %s)" % (tst(e[1]), ex(e[2]), ex(e[3]))
 
     def st(s):
@@ -2512,9 +2559,12 @@ def mini_sexp(prog):
             return "(asg %d %s)" % (s[1], ex(s[2]))
         if s[0] == "ret":
             return "(ret %s)" % ex(s[1])
+        if s[0] == "unp":
+            return "(unp (%s) %s)" % (" ".join(str(x) for x in s[1]), ex(s[2]))
         return "(if %s (%s) (%s))" % (tst(s[1]), " ".join(st(x) for x in s[2]), " ".join(st(x) for x in s[3]))
 
-    return "(prog (%s) %s)" % (" ".join(V.ty_sexp(t) for t in prog["params"]), " ".join(st(s) for s in prog["body"]))
+    return "(prog (%s) (rets %s) %s)" % (" ".join(V.ty_sexp(t) for t in prog["params"]), " ".join(V.ty_sexp(h[2]) for h in MINI_HELPERS),
+                                         " ".join(st(s) for s in prog["body"]))
 
 
 def mini_paths(prog, fn_node):
@@ -2532,6 +2582,9 @@ def mini_paths(prog, fn_node):
         elif k == "ite":
             ex(e[2], node.body, path + [1])
             ex(e[3], node.orelse, path + [2])
+        elif k == "call":
+            for j, (x, n) in enumerate(zip(e[2], node.args)):
+                ex(x, n, path + [j])
 
     def blk(stmts, nodes, path):
         for i, (s, n) in enumerate(zip(stmts, nodes)):
@@ -2540,6 +2593,8 @@ def mini_paths(prog, fn_node):
                 ex(s[2], n.value, sp + [0])
             elif s[0] == "ret":
                 ex(s[1], n.value, sp + [0])
+            elif s[0] == "unp":
+                ex(s[2], n.value, sp + [0])
             else:
                 blk(s[2], n.body, sp + [1])
                 blk(s[3], n.orelse, sp + [2])
@@ -2634,7 +2689,7 @@ def mini_stream(ctx, progs, with_model=True):
         part = progs[b0:b0 + B]
         names = ["m%d" % i for i in range(len(part))]
         body = "\n".join(mini_src(p, n) for p, n in zip(part, names)) + "\n"
-        src = PRELUDE_HEAD + body
+        src = MINI_PRELUDE + body
         try:
             fails, tree, vals = analyse(src)
         except Exception as e:
@@ -2644,13 +2699,16 @@ def mini_stream(ctx, progs, with_model=True):
         ns = {}
         logs = []
         ibody = "\n".join(mini_src(p, n, instr=True) for p, n in zip(part, names)) + "\n"
-        exec(compile(PRELUDE_HEAD + ibody, "<c01-mini>", "exec"), {"__rec": lambda k, v: (logs.append((k, snapshot(v))), v)[1], "__name__": "c01_mini"}, ns)
+        ns = {"__rec": lambda k, v: (logs.append((k, snapshot(v))), v)[1], "__name__": "c01_mini"}
+        exec(compile(MINI_PRELUDE + ibody, "<c01-mini>", "exec"), ns)
         lines, meta = [], []
         for p, n in zip(part, names):
             argsets = p.get("argsets") or gen_args(rng, p["params"], ctx.n(3, 4))
             for objs in argsets:
                 if "'cls'" in repr(objs):
                     continue  # class objects are subscriptable (dict[0] is a GenericAlias): outside the mini semantics
+                if any(k in repr(objs) for k in ("'set'", "'fset'", "'dict'")) and "unp" in repr(p["body"]):
+                    continue  # iteration order of sets / dicts: the Lean semantics fixes the representation order
                 lines.append("run %s (args %s)" % (mini_sexp(p), " ".join(V.obj_sexp(V.canon_obj(o)) for o in objs)))
                 meta.append((p, n, objs))
         outs = lean.run_driver("C01", lines) if (with_model and lines) else [None] * len(lines)
@@ -2677,7 +2735,7 @@ def mini_stream(ctx, progs, with_model=True):
             try:
                 ret = ns[n](*[V.obj_to_py(o) for o in objs])
                 outcome = "ret " + V.obj_sexp(V.canon_obj(V.py_to_obj(ret)))
-            except (IndexError, TypeError, KeyError, UnboundLocalError):
+            except (IndexError, TypeError, KeyError, UnboundLocalError, ValueError):
                 outcome = "raised"
             cpy = [(k, V.obj_sexp(V.canon_obj(V.py_to_obj(v)))) for k, v in logs]
             conforms = True
@@ -2779,8 +2837,6 @@ def conforms_to(cls, f):
         return bool(ts) and all(lit_only(t) for t in ts)
     if cls == "C02:promote":
         return isinstance(val, int) or isinstance(val, float)  # an int / bool (float for complex) dropped by the negative branch
-    if cls == "tupleConcat":
-        return isinstance(val, tuple)
     if cls == "setDisplayOrder":
         # only the positions are wrong: every element belongs to some member of the inferred form
         def members_of(t):
@@ -2819,10 +2875,6 @@ def classify_requests(failures, fn_src_of):
             seqform = bool(ts) and all(any(m[0] == "seq" for m in (t[1] if t[0] == "union" else [t])) for t in ts)
             valseq = isinstance(f.get("pyvalue"), (tuple, list))
             reqs.append((i, "call %d %d %d" % (shared, seqform, valseq), ["C04:seqLeniency"] if (shared and seqform and valseq) else []))
-        elif isinstance(node, ast.BinOp):
-            is_add = isinstance(node.op, ast.Add)
-            tup = isinstance(f.get("pyvalue"), tuple)
-            reqs.append((i, "binop %d %d %d" % (is_add, tup, tup), ["tupleConcat"] if (is_add and tup) else []))
     return reqs
 
 
@@ -2915,6 +2967,8 @@ def mini_from_json(p):
             return (k, [ex(x) for x in e[1]])
         if k == "sub":
             return ("sub", ex(e[1]), e[2])
+        if k == "call":
+            return ("call", e[1], [ex(x) for x in e[2]])
         return ("ite", tst(e[1]), ex(e[2]), ex(e[3]))
 
     def tst(t):
@@ -2925,6 +2979,8 @@ def mini_from_json(p):
             return ("asg", s[1], ex(s[2]))
         if s[0] == "ret":
             return ("ret", ex(s[1]))
+        if s[0] == "unp":
+            return ("unp", list(s[1]), ex(s[2]))
         return ("if", tst(s[1]), [st(x) for x in s[2]], [st(x) for x in s[3]])
 
     out = {"params": [totuple(t) for t in p["params"]], "body": [st(s) for s in p["body"]]}
@@ -3010,7 +3066,7 @@ def mini_progs(ctx):
 
 
 def malformed(ctx):
-    bad = ["run (prog) (args)", "cls if:0 [ o", "run (prog ((typed 1)) (asg x (lit (int 1)))) (args (int 1))", "cls zz", "binop 1", "foo"]
+    bad = ["run (prog) (args)", "cls if:0 [ o", "run (prog ((typed 1)) (asg x (lit (int 1)))) (args (int 1))", "cls zz", "binop 1 1 1", "foo"]
     good = ["cls o u:0 ret", "run (prog ((typed 1)) (ret (var 0))) (args (int 1))"]
     res = lean.run_driver("C01", bad + good)
     for line, r in zip(bad + good, res):
